@@ -618,6 +618,12 @@ func run(t *testing.T, prop string, c simrt.Case, out *simrt.Outcome, lg *simrt.
 	jitter := simrt.NewRand(cfg.Seed ^ 0x6a69747465)
 	jitterOn := prop == "C13" || prop == "C12" || prop == "C01"
 	var jmu sync.Mutex
+	heldUp := 0
+	defer func() {
+		jmu.Lock()
+		out.Probes["lock_attempt_held_up"] += heldUp
+		jmu.Unlock()
+	}()
 	simhook.YieldHook = func(site string) {
 		inc, _ := w.reg.Current().(*fullnode.Inc)
 		if inc == nil {
@@ -631,7 +637,7 @@ func run(t *testing.T, prop string, c simrt.Case, out *simrt.Outcome, lg *simrt.
 			d := 0
 			if jitter.Intn(16) == 0 {
 				d = 1 + jitter.Intn(400)
-				out.Probes["lock_attempt_held_up"]++
+				heldUp++ // (under jmu; added to the probes when the run ends: the probe map belongs to the harness goroutine)
 			}
 			jmu.Unlock()
 			if d > 0 {
